@@ -48,15 +48,21 @@ for _f in sorted(glob.glob(os.path.join(os.path.dirname(os.path.abspath(__file__
     for p, lst in getattr(_m, "PLAN", {}).items():
         for ent in lst:
             cur = PLAN.setdefault(p, [])
+            # optional third element: {"include_props": [...]} = under this variant, run the harnesses that belong to
+            # those properties as part of property p (used by C03: conformance harnesses re-run on feature/cfg builds)
+            opts = dict(ent[2]) if len(ent) > 2 else {}
             # merge harness files of the same variant into one shadow group
             for c in cur:
                 if c[0] == ent[0]:
                     for f in ent[1]:
                         if f not in c[1]:
                             c[1].append(f)
+                    for k, v in opts.items():
+                        c[2].setdefault(k, [])
+                        c[2][k].extend(x for x in v if x not in c[2][k])
                     break
             else:
-                cur.append((ent[0], list(ent[1])))
+                cur.append((ent[0], list(ent[1]), {k: list(v) for k, v in opts.items()}))
     for p, lst in getattr(_m, "ASSUMPTIONS", {}).items():
         ASSUMPTIONS.setdefault(p, []).extend(lst)
     MANIFEST_TEXT.update(getattr(_m, "MANIFEST_TEXT", {}))
